@@ -626,6 +626,28 @@ func (w *c42World) closing() {
 	w.checkDeadline()
 }
 
+// finalScan ends every history the way a consumer may at any time: cancel the
+// outstanding Poll, if any, and Scan - so that the first sentence of the
+// property is also judged for histories that stop right after a transition.
+func (w *c42World) finalScan() {
+	if w.res.Clause != "" || w.res.Infra != "" || w.transPending {
+		return
+	}
+	if w.lt == nil || !w.lt.changed || w.lt.touched {
+		return
+	}
+	if w.polling {
+		w.pollCancelled = true
+		w.pollCancel()
+		synctest.Wait()
+		w.observe()
+	}
+	if !w.polling {
+		w.tag("final-scan")
+		w.doScan(false)
+	}
+}
+
 func (w *c42World) shutdown() {
 	if w.transPending {
 		close(w.gate.ch)
@@ -693,6 +715,7 @@ func runC42(t *testing.T, env *c42Env, c c42Case) *c42Result {
 		}
 		res.Enabled = w.enabled()
 		w.closing()
+		w.finalScan()
 	})
 	return res
 }
@@ -731,6 +754,9 @@ func isSubsequence(pat, h []string) bool {
 }
 
 // c42Rank orders events for the canonical form of a minimal violating history.
+// c42EventNames is the event alphabet (index = compact encoding).
+var c42EventNames = []string{"scan", "scanfull", "trans", "release", "poll", "cancel", "adv30", "adv1s", "extedit", "extrev"}
+
 var c42Rank = map[string]int{"scan": 0, "scanfull": 1, "trans": 2, "release": 3, "adv30": 4, "adv1s": 5, "poll": 6, "cancel": 7, "extedit": 8, "extrev": 9}
 
 // minimiseC42 reduces a violating case to a canonical 1-minimal one: (1) greedy
@@ -925,45 +951,68 @@ func TestC42(t *testing.T) {
 		return res.Enabled
 	}
 
-	var dfs func(t *testing.T, env *c42Env, c c42Case)
-	dfs = func(t *testing.T, env *c42Env, c c42Case) {
-		if time.Now().After(deadline) {
-			capped.Store(true)
-			return
+	// Level-synchronous exploration: all histories of length d (of every kind)
+	// are visited - in parallel, each from scratch - before any of length d+1,
+	// so that a wall budget can only ever cut the deepest level and shallow
+	// histories of all variants are always covered. The frontier is kept in a
+	// compact form (kind index + event indices).
+	type compact struct {
+		kind   uint8
+		events []uint8
+	}
+	evIndex := map[string]uint8{}
+	for i, e := range c42EventNames {
+		evIndex[e] = uint8(i)
+	}
+	expand := func(n compact) c42Case {
+		c := c42Case{Kind: kinds[n.kind]}
+		for _, e := range n.events {
+			c.Events = append(c.Events, c42EventNames[e])
 		}
-		enabled := visit(t, env, c)
-		if len(c.Events) >= depthOf[c.Kind] {
-			return
+		return c
+	}
+	var frontier []compact
+	for k := range kinds {
+		frontier = append(frontier, compact{kind: uint8(k)})
+	}
+	completeDepth := -1
+	for d := 0; len(frontier) > 0; d++ {
+		children := make([][]compact, len(frontier))
+		q := &workQueue{n: len(frontier)}
+		parallelSubtests(t, workers(), func(t *testing.T, w int) {
+			env := mkenv(t, fmt.Sprintf("d%dw%d", d, w))
+			for {
+				i, ok := q.take()
+				if !ok {
+					return
+				}
+				if time.Now().After(deadline) {
+					capped.Store(true)
+					return
+				}
+				n := frontier[i]
+				c := expand(n)
+				enabled := visit(t, env, c)
+				if len(n.events) >= depthOf[c.Kind] {
+					continue
+				}
+				for _, ev := range enabled {
+					child := compact{kind: n.kind, events: make([]uint8, len(n.events)+1)}
+					copy(child.events, n.events)
+					child.events[len(n.events)] = evIndex[ev]
+					children[i] = append(children[i], child)
+				}
+			}
+		})
+		if capped.Load() {
+			break
 		}
-		for _, ev := range enabled {
-			dfs(t, env, c42Case{c.Kind, append(append([]string{}, c.Events...), ev)})
+		completeDepth = d
+		frontier = frontier[:0]
+		for _, cs := range children {
+			frontier = append(frontier, cs...)
 		}
 	}
-
-	// Seed: all histories of length <= 2 are visited here; their length-2
-	// extensions become the shards.
-	var shards []c42Case
-	seedEnv := mkenv(t, "seed")
-	for _, kind := range kinds {
-		root := c42Case{Kind: kind}
-		for _, e1 := range visit(t, seedEnv, root) {
-			c1 := c42Case{kind, []string{e1}}
-			for _, e2 := range visit(t, seedEnv, c1) {
-				shards = append(shards, c42Case{kind, []string{e1, e2}})
-			}
-		}
-	}
-	q := &workQueue{n: len(shards)}
-	parallelSubtests(t, workers(), func(t *testing.T, w int) {
-		env := mkenv(t, fmt.Sprintf("w%d", w))
-		for {
-			i, ok := q.take()
-			if !ok {
-				return
-			}
-			dfs(t, env, shards[i])
-		}
-	})
 
 	r.Set("executions", executions+minRuns)
 	r.Set("distinct_histories", histories)
@@ -971,9 +1020,9 @@ func TestC42(t *testing.T) {
 	r.Set("depth_bound", depthOf)
 	r.Set("divergent_replays", divergent)
 	r.Set("violating_histories", violating)
-	r.Set("shards", len(shards))
+	r.Set("complete_depth", completeDepth)
 	if capped.Load() {
-		r.NotExhaustive(fmt.Sprintf("wall budget reached before all histories of depth <= %d were visited", depth))
+		r.NotExhaustive(fmt.Sprintf("wall budget reached: every history of length <= %d (all variants) was visited, length %d only partly (bounds %v)", completeDepth, completeDepth+1, depthOf))
 	} else if divergent > 0 {
 		r.NotExhaustive(fmt.Sprintf("%d histories gave different observations on their second replay (scheduling not owned below quiescence granularity)", divergent))
 	}
